@@ -19,6 +19,11 @@ class CallMixin:
         # spec special forms
         if isinstance(f, ast.Name) and f.id in ('old', 'forall_int', 'exists_int', 'implies') and self.spec_mode:
             return self.spec_special(e)
+        if isinstance(f, ast.Name) and f.id in ('all', 'any') and self.spec_mode and len(e.args) == 1 \
+                and isinstance(e.args[0], ast.GeneratorExp):
+            r = self.spec_quantifier(f.id, e.args[0])
+            if r is not NotImplemented:
+                return r
         fv = self.eval(f)
         args = []
         for a in e.args:
@@ -207,6 +212,15 @@ class CallMixin:
         if r is not NotImplemented:
             return r
         raise Unsupported('super().%s on extern base %s' % (name, base))
+
+    def namedtuple_new(self, clsref, clso, args, kwargs):
+        names = clso.fields['fields']
+        vals = dict(zip(names, args))
+        vals.update(kwargs)
+        if set(vals) != set(names):
+            self.raise_builtin('TypeError')
+        o = Obj(clso, {n: vals[n] for n in names})
+        return self.heap.alloc(o)
 
     def obj_class(self, v):
         if isinstance(v, Ref):
